@@ -28,6 +28,7 @@ RULES = {
     "R2.3": "extracted policy == [n -> ACTIONS[argmax_a Q(state_space[n], A[a])]] with the sweep's own Q at self.values, self.gamma",
     "R2.4": "every problem.* leaf call receives (state[sdim], action[adim], event[edim]) / a state vector, decided from dataflow",
     "R2.6": "code traced by jax.pmap / jax.jit (the kernels) never reads mutable solver state through `self` (values, policy, gain, history, key, ...): such a read is baked in at trace time, so later sweeps would silently use stale values instead of the value vector passed as argument",
+    "R2.7": "the discount factor the kernels use is the configured one: the constructor assigns self.gamma from config.gamma itself (through value-transparent array constructors only) - no fallback, rounding or transformation in between",
     "R2.5": "un-batching composes with batching to the identity on real states: no device/batch/slot index survives in the result",
 }
 ASSUMPTIONS = [
@@ -81,6 +82,8 @@ def run(ctx: Context, col) -> None:
     owner, fn = ctx.ct.require(vi, "_initialize_values")
     _leafs_and_unbatch(I, "Solver._initialize_values", owner, fn, col)
     _traced_reads(ctx, col)
+    _gamma_source(ctx, col)
+    col.floor("R2.7", 1)
     col.floor("R2.6", 20)
     col.floor("R2.1", 3)
     col.floor("R2.3", 5)
@@ -155,3 +158,34 @@ def _traced_reads(ctx, col):
                     "traced kernel reads no mutable solver state through self" if not bad else
                     f"`self.{bad[0].attr}` is read inside code traced by pmap/jit: its value at the first call is compiled in, later calls "
                     f"ignore updates of self.{bad[0].attr} (use the argument passed into the kernel)", text=f"traced reads in {f.name}")
+
+
+def _gamma_source(ctx, col):
+    import ast
+
+    from ..effects import is_self_attr
+    from ..interp import Frame, Interp, Unsupported
+    from ..terms import show_norm
+
+    sol = ctx.ct.get("Solver")
+    sites = []
+    for owner in [sol] + ctx.ct.subclasses(sol):
+        for fn in owner.methods.values():
+            for st in ast.walk(fn):
+                if isinstance(st, ast.Assign) and any(is_self_attr(t, "gamma") for t in st.targets):
+                    sites.append((owner, fn, st))
+    if not sites:
+        raise AnalysisError("anchor vanished: no assignment of self.gamma in the solver classes")
+    for owner, fn, st in sites:
+        if fn.name == "_restore_state_from_checkpoint":
+            continue
+        I = Interp(ctx.ct, owner, {"config": ("obj", "config")})
+        try:
+            t = I.ev(st.value, {"self": ("self",)}, Frame(owner, owner.module, fn))
+        except Unsupported as e:
+            raise AnalysisError(f"{owner.name}.{fn.name}: self.gamma = {ast.unparse(st.value)[:60]}: {e}") from e
+        ok = t == ("sym", "config.gamma")
+        col.add("R2.7", f"{owner.name}.{fn.name}", owner.module.relpath, st.lineno, ok,
+                "self.gamma is config.gamma (as an array)" if ok else
+                f"self.gamma is `{ast.unparse(st.value)[:80]}` = {show_norm(t)[:120]}, not the configured discount factor itself: sweeps and policy "
+                "extraction discount by a different number than the one requested", text="gamma source")
